@@ -468,3 +468,40 @@ def periodic_heartbeat_solicits_ack(facts, rep, rule):
         rep.add(rule, h.sname, "a non-final heartbeat always sets must_send_acknacks", ok,
                 "must_send_acknacks is not forced to true on the final_flag()==false edge", h.loc(t.line))
     return n
+
+
+def gap_ranges_nonempty(fx, rep, rule):
+    """Every GAP the writer side builds covers at least its own start: `GapSubmessage::new(.., gap_start, SequenceNumberSet::new(base, []))`
+    declares [gap_start, base-1] irrelevant, so `base` has the form `x + 1` with x the start itself (a single change) or the end of
+    a range that starts at gap_start (`x = next - 1`). A GAP whose base equals its start covers nothing: the reader keeps
+    requesting the same number and never delivers (or acknowledges) anything after it. Sibling sites must agree."""
+    n = 0
+    for b in fx.bodies.values():
+        if not b.is_fn_like() or "::tests::" in b.sname or not b.calls_any("GapSubmessage::new"):
+            continue
+        if not ((b.impl_self or "").endswith(("RtpsReaderProxy", "RtpsStatefulWriter", "RtpsStatelessWriter", "RtpsReaderLocator"))
+                or "stateful_writer" in b.sname or "stateless_writer" in b.sname):
+            continue
+        fc = FnCtx(b)
+        for bb, t in fc.calls("GapSubmessage::new"):
+            if len(t.args) < 4:
+                continue
+            n += 1
+            start = E.arith_norm(E.strip_casts(fc.arg(t, 2)))
+            lst = E.strip_casts(fc.arg(t, 3))
+            base = None
+            if lst[0] == "call" and lst[1].endswith("SequenceNumberSet::new") and lst[2]:
+                base = E.arith_norm(E.strip_casts(lst[2][0]))
+            ok = False
+            why = "gap_list is not built by SequenceNumberSet::new at this site"
+            if base is not None:
+                why = "gap_list base is %s, gap_start is %s" % (fc.show(base)[:120], fc.show(start)[:120])
+                if base[0] == "bin" and base[1] == "Add" and (E.strip_casts(base[3]) == ("const", 1) or E.strip_casts(base[2]) == ("const", 1)):
+                    x = E.strip_casts(base[2] if E.strip_casts(base[3]) == ("const", 1) else base[3])
+                    single = E.same(x, start)
+                    ranged = x[0] == "bin" and x[1] == "Sub" and E.strip_casts(x[3]) == ("const", 1)
+                    ok = single or ranged
+            rep.add(rule, b.sname, "a GAP covers at least its start (gap_list base = last irrelevant number + 1)", ok,
+                    "%s: the announced range [gap_start, base-1] is empty or unrelated to the start, the reader ignores the GAP and "
+                    "requests the same sequence number for ever" % why, b.loc(t.line))
+    return n
